@@ -173,3 +173,166 @@ func ChanClose[T any](ch chan<- T) {
 	}
 	waitList = keep
 }
+
+// ---- select
+
+// SelCase is one communication clause of a rewritten select statement.
+type SelCase struct {
+	ch   reflect.Value
+	send bool
+	val  reflect.Value // value to send
+	dst  reflect.Value // pointer receiving the value (may be invalid)
+	ok   *bool
+}
+
+// SelRecv builds a receive clause; dst (pointer to a variable of the element type) and ok may be nil.
+//
+//go:norace
+func SelRecv(ch any, dst any, ok *bool) SelCase {
+	c := SelCase{ch: reflect.ValueOf(ch), ok: ok}
+	if dst != nil {
+		c.dst = reflect.ValueOf(dst)
+	}
+	return c
+}
+
+// SelSend builds a send clause.
+//
+//go:norace
+func SelSend(ch any, v any) SelCase {
+	c := SelCase{ch: reflect.ValueOf(ch), send: true}
+	c.val = reflect.ValueOf(v)
+	elem := c.ch.Type().Elem()
+	if !c.val.IsValid() {
+		c.val = reflect.Zero(elem)
+	} else if !c.val.Type().AssignableTo(elem) && c.val.Type().ConvertibleTo(elem) {
+		c.val = c.val.Convert(elem) // untyped constant hoisted into a variable by the instrumenter
+	}
+	return c
+}
+
+// ZeroRecv declares variables of a channel's element type without spelling the type.
+func ZeroRecv[T any](ch <-chan T) (z T, ok bool) { return }
+
+//go:norace
+func (c *SelCase) ready() bool {
+	if c.ch.IsNil() {
+		return false
+	}
+	id := c.ch.Pointer()
+	if c.ch.Cap() > 0 {
+		if c.send {
+			return c.ch.Len() < c.ch.Cap() || isClosed(id)
+		}
+		return c.ch.Len() > 0 || isClosed(id)
+	}
+	if isClosed(id) {
+		return true
+	}
+	want := chSend
+	if c.send {
+		want = chRecv
+	}
+	for _, w := range waitList {
+		if w.chID == id && w.chKind == want {
+			return true
+		}
+	}
+	return false
+}
+
+//go:norace
+func selAnyReady(cs []SelCase) bool {
+	for i := range cs {
+		if cs[i].ready() {
+			return true
+		}
+	}
+	return false
+}
+
+// perform executes the (ready) clause for real.
+//
+//go:norace
+func (c *SelCase) perform() {
+	id := c.ch.Pointer()
+	if c.ch.Cap() == 0 && !isClosed(id) {
+		want := chSend
+		if c.send {
+			want = chRecv
+		}
+		if w := popWaiter(id, want); w != nil {
+			rendezvous(w)
+		}
+	}
+	if c.send {
+		c.ch.Send(c.val)
+		return
+	}
+	v, ok := c.ch.Recv()
+	if c.dst.IsValid() {
+		c.dst.Elem().Set(v)
+	}
+	if c.ok != nil {
+		*c.ok = ok
+	}
+}
+
+// Select chooses one ready clause (blocking in the model until one is ready unless hasDefault),
+// performs it and returns its index, or -1 for the default clause. Several ready clauses are a
+// choice point of the exploration (Go picks one pseudo-randomly).
+//
+//go:norace
+func Select(hasDefault bool, cases ...SelCase) int {
+	if !Active {
+		// free-running: the real select
+		rc := make([]reflect.SelectCase, 0, len(cases)+1)
+		for _, c := range cases {
+			if c.send {
+				rc = append(rc, reflect.SelectCase{Dir: reflect.SelectSend, Chan: c.ch, Send: c.val})
+			} else {
+				rc = append(rc, reflect.SelectCase{Dir: reflect.SelectRecv, Chan: c.ch})
+			}
+		}
+		if hasDefault {
+			rc = append(rc, reflect.SelectCase{Dir: reflect.SelectDefault})
+		}
+		i, v, ok := reflect.Select(rc)
+		if i == len(cases) {
+			return -1
+		}
+		if !cases[i].send {
+			if cases[i].dst.IsValid() {
+				cases[i].dst.Elem().Set(v)
+			}
+			if cases[i].ok != nil {
+				*cases[i].ok = ok
+			}
+		}
+		return i
+	}
+	self := cur
+	if hasDefault {
+		schedule(self)
+	} else {
+		self.sel = cases
+		schedule(self)
+		self.sel = nil
+	}
+	var ready []int
+	for i := range cases {
+		if cases[i].ready() {
+			ready = append(ready, i)
+		}
+	}
+	if len(ready) == 0 {
+		return -1 // only reachable with a default clause
+	}
+	pick := 0
+	if len(ready) > 1 {
+		pick = choose(len(ready), false)
+	}
+	i := ready[pick]
+	cases[i].perform()
+	return i
+}
